@@ -56,8 +56,8 @@ int main(void) {
         printf("#%ld\n", id); fflush(stdout);
         if (!sigsetjmp(h_jb, 1)) {
             h_armed = 1; alarm(10);
-            if (fn[0] == 'q') rc = _qsort_s_chk(abase, (rsize_t)nmemb, (rsize_t)size, cmp, &ctxobj, BOSU);
-            else { void *p = _bsearch_s_chk(kb, abase, (rsize_t)nmemb, (rsize_t)size, bcmp_, &ctxobj, BOSU); rc = 0; ret = p ? ((char *)p - abase) / size + 1 : 0; if (p && ((char *)p - abase) % size) ret = -2; }
+            if (fn[0] == 'q') rc = _qsort_s_chk(abase, (rsize_t)nmemb, (rsize_t)size, cmp, &ctxobj, H_KBOS(id, nmemb > 0, (size_t)nmemb * size));
+            else { void *p = _bsearch_s_chk(kb, abase, (rsize_t)nmemb, (rsize_t)size, bcmp_, &ctxobj, H_KBOS(id, nmemb > 0, (size_t)nmemb * size)); rc = 0; ret = p ? ((char *)p - abase) / size + 1 : 0; if (p && ((char *)p - abase) % size) ret = -2; }
             alarm(0); h_armed = 0;
         } else { alarm(0); fk = h_fault_kind; if (fk == 1 || fk == 2) foff = h_fault_addr - abase; }
         {
